@@ -47,6 +47,9 @@ fn mk_c10() -> Vec<Box<dyn Monitor>> {
 fn mk_c12() -> Vec<Box<dyn Monitor>> {
     vec![Box::new(mon::c12::C12)]
 }
+fn mk_c13() -> Vec<Box<dyn Monitor>> {
+    vec![Box::new(mon::c13::C13)]
+}
 fn mk_c06() -> Vec<Box<dyn Monitor>> {
     vec![Box::new(mon::swaps::C06)]
 }
@@ -67,6 +70,7 @@ fn specs() -> Vec<CheckSpec> {
         quick_runs: 300,
         thorough_secs: 600,
         assumptions: COMMON_ASSUMPTIONS,
+        extra: None,
     },
     CheckSpec {
         id: "C03",
@@ -77,6 +81,7 @@ fn specs() -> Vec<CheckSpec> {
         quick_runs: 400,
         thorough_secs: 600,
         assumptions: COMMON_ASSUMPTIONS,
+        extra: None,
     },
     CheckSpec {
         id: "C06",
@@ -87,6 +92,7 @@ fn specs() -> Vec<CheckSpec> {
         quick_runs: 400,
         thorough_secs: 600,
         assumptions: COMMON_ASSUMPTIONS,
+        extra: None,
     },
     CheckSpec {
         id: "C07",
@@ -97,6 +103,7 @@ fn specs() -> Vec<CheckSpec> {
         quick_runs: 400,
         thorough_secs: 600,
         assumptions: COMMON_ASSUMPTIONS,
+        extra: None,
     },
     CheckSpec {
         id: "C08",
@@ -107,6 +114,7 @@ fn specs() -> Vec<CheckSpec> {
         quick_runs: 400,
         thorough_secs: 600,
         assumptions: COMMON_ASSUMPTIONS,
+        extra: None,
     },
     CheckSpec {
         id: "C17",
@@ -117,6 +125,7 @@ fn specs() -> Vec<CheckSpec> {
         quick_runs: 300,
         thorough_secs: 600,
         assumptions: COMMON_ASSUMPTIONS,
+        extra: None,
     },
     CheckSpec {
         id: "C10",
@@ -127,6 +136,7 @@ fn specs() -> Vec<CheckSpec> {
         quick_runs: 300,
         thorough_secs: 600,
         assumptions: COMMON_ASSUMPTIONS,
+        extra: None,
     },
     CheckSpec {
         id: "C12",
@@ -137,6 +147,18 @@ fn specs() -> Vec<CheckSpec> {
         quick_runs: 400,
         thorough_secs: 600,
         assumptions: COMMON_ASSUMPTIONS,
+        extra: None,
+    },
+    CheckSpec {
+        id: "C13",
+        profile: Profile::Core,
+        mk: mk_c13,
+        level: "exploration",
+        rule: "HIST (1) after every landed instruction each touched dynamic tick array is walked from raw bytes (flag byte 0/1, 112 more bytes iff 1, bitmap bit i <=> slot i initialised, walk ends exactly at data_len = 148 + 112*popcount, rent exempt), Anchor's dynamic accessors (get_tick, get_next_init_tick_index both directions, off-spacing ticks) are compared with Anchor's fixed accessors on the decoded content and with the raw bytes for all 88 slots, and rent must only move between the position and its arrays; (2) twin runs: every seed is run three times with fixed / dynamic / mixed arrays and every transaction outcome plus the observable state after every transaction (token accounts, pool and position bytes, decoded tick contents) must be equal; a case is one (instruction, created/grown/shrunk/rewritten, #initialised, boundary slot) tuple or one twin comparison",
+        quick_runs: 200,
+        thorough_secs: 600,
+        assumptions: COMMON_ASSUMPTIONS,
+        extra: Some(mon::c13::run_twins),
     },
     CheckSpec {
         id: "C05",
@@ -147,6 +169,7 @@ fn specs() -> Vec<CheckSpec> {
         quick_runs: 400,
         thorough_secs: 600,
         assumptions: COMMON_ASSUMPTIONS,
+        extra: None,
     },
     ]
 }
@@ -228,7 +251,12 @@ fn main() {
                 eprintln!("unknown check {}", doc.property);
                 std::process::exit(2)
             });
-            let v = run::replay_events(doc.seed, doc.profile, doc.thorough, &doc.events, spec.mk);
+            let v = if doc.mode_extra {
+                let mut cov = sim::Coverage::default();
+                spec.extra.and_then(|x| x(doc.seed, doc.profile, doc.thorough, doc.max_events, &mut cov)).into_iter().collect()
+            } else {
+                run::replay_events(doc.seed, doc.profile, doc.thorough, &doc.events, spec.mk)
+            };
             if let Some(x) = v.first() {
                 println!("VIOLATION property={} replay={}", doc.property, path);
                 println!("  class={} event={} : {}", x.class, x.event_idx, x.detail);
